@@ -335,8 +335,8 @@ func (vfs *MemFS) Link(oldname, newname string) error {
 		return &os.LinkError{Op: op, Old: oldname, New: newname, Err: nerr}
 	}
 
-	// The parent directory of newname must exist.
-	if !pi.IsLast() {
+	// The parent directory of newname must exist (it does not when newname is a volume that does not exist).
+	if !pi.IsLast() || nParent == nil {
 		return &os.LinkError{Op: op, Old: oldname, New: newname, Err: nerr}
 	}
 
@@ -427,7 +427,7 @@ func (vfs *MemFS) Mkdir(name string, perm fs.FileMode) error {
 
 	// A symbolic link as last element of the path is not followed: the name exists.
 	parent, _, pi, err := vfs.searchNode(name, slmLstat)
-	if !vfs.isNotExist(err) || !pi.IsLast() {
+	if !vfs.isNotExist(err) || !pi.IsLast() || parent == nil {
 		return &fs.PathError{Op: op, Path: name, Err: err}
 	}
 
@@ -542,7 +542,7 @@ func (vfs *MemFS) OpenFile(name string, flag int, perm fs.FileMode) (avfs.File, 
 	}
 
 	parent, child, pi, err := vfs.searchNode(name, slm)
-	if err != vfs.err.FileExists && !vfs.isNotExist(err) || !pi.IsLast() {
+	if err != vfs.err.FileExists && !vfs.isNotExist(err) || !pi.IsLast() || parent == nil {
 		return (*MemFile)(nil), &fs.PathError{Op: op, Path: name, Err: err}
 	}
 
@@ -828,7 +828,7 @@ func (vfs *MemFS) Rename(oldpath, newpath string) error {
 	}
 
 	// The parent directory of newpath must exist.
-	if vfs.isNotExist(nErr) && !nPI.IsLast() {
+	if vfs.isNotExist(nErr) && (!nPI.IsLast() || nParent == nil) {
 		return &os.LinkError{Op: op, Old: oldpath, New: newpath, Err: nErr}
 	}
 
@@ -994,7 +994,7 @@ func (vfs *MemFS) Symlink(oldname, newname string) error {
 	const op = "symlink"
 
 	parent, _, pi, nerr := vfs.searchNode(newname, slmLstat)
-	if !vfs.isNotExist(nerr) || !pi.IsLast() {
+	if !vfs.isNotExist(nerr) || !pi.IsLast() || parent == nil {
 		return &os.LinkError{Op: op, Old: oldname, New: newname, Err: nerr}
 	}
 
